@@ -81,6 +81,7 @@ func runCase(c Case) caseResult {
 			continue
 		}
 		vm.StrictDeviations = c.Opt.StrictDev
+		vm.StallDeviations = c.Opt.Stall
 		vm.DefaultPolicy = c.Opt.Policy
 		// scenarios keep observations in closures: judge each replay before the next one runs
 		m1, m2 := "", ""
@@ -404,6 +405,7 @@ func replay(run *common.Run, cases []Case) {
 			continue
 		}
 		vm.StrictDeviations = c.Opt.StrictDev
+		vm.StallDeviations = c.Opt.Stall
 		vm.DefaultPolicy = c.Opt.Policy
 		if os.Getenv("VM_TRACE") != "" {
 			vm.TraceSched = func(p int, now int64, en []string) {
